@@ -3,6 +3,8 @@ import GoSQLXModel.Gen.ParserGraph
 import GoSQLXModel.Gen.TokenizerGraph
 import GoSQLXModel.Gen.Limits
 import GoSQLXModel.Gen.Known
+import GoSQLXModel.Model.LexGen
+import GoSQLXModel.Proofs.LexLimit
 /-!
 # C02 — Size, token and nesting limits hold for every construct
 
@@ -76,5 +78,34 @@ theorem not_chain_shape_unbounded (n : Nat) :
     rcases he with he | he
     · exact he
     · exact ih (unguarded_cycle_unbounded _ "prim" (by simp [Chain]) (by simp [chainEnd]) (by simp) (by simp [guardedCount]) n) he
+
+
+/-! ### the token limit (tokenizer model `Model/Lex.lean`, tied to `Tokenizer.Tokenize` by the C04 correspondence) -/
+open GoSQLXModel.Lex in
+/-- **C02 (token clause, bound)**: whatever the input and the character classes, an accepted run returns at most
+    1 000 000 tokens and the end marker — counted over the whole input, not per statement. -/
+theorem token_count_is_bounded (cls : CharClass) (inp : Bytes) (out : List Tok) (cms : List Comment)
+    (h : tokenize cls genLexTables inp = .ok out cms) : out.length ≤ 1000001 := by
+  have := tokenize_bounded cls genLexTables inp out cms h
+  have hm : genLexTables.maxTokens = 1000000 := by decide
+  omega
+
+open GoSQLXModel.Lex in
+/-- **C02 (token clause, refusal)**: a text of the reference grammar with exactly `maxTokens` lexemes — wherever its
+    semicolons stand — followed by anything that starts another token is refused with E1007, located at what follows. -/
+theorem token_limit_refuses_reference_text (cls : CharClass) (tb : Tables) (hA : AsciiOK cls) (lead : List Piece)
+    (items : List Item2) (tail : Bytes) (htail : stopB tail = true) (hne : tail ≠ []) (hlead : lead.all Piece.ok = true)
+    (hok : seqOKT cls tb tail items = true) (hsize : (sepBytes lead ++ (flat2 items ++ tail)).length ≤ tb.maxInput)
+    (hcount : items.length = tb.maxTokens) :
+    tokenize cls tb (sepBytes lead ++ (flat2 items ++ tail)) =
+      .err ⟨"E1007", .at ((sepBytes lead ++ (flat2 items ++ tail)).length - tail.length)⟩ :=
+  token_limit_refuses cls tb hA lead items tail htail hne hlead hok hsize hcount
+
+/-- non-vacuity, with the limit set to 3: `a;b` are three lexemes in two statements, `;c` follows -/
+def small : Lex.Tables := { Lex.genLexTables with maxTokens := 3 }
+example : Lex.seqOKT .ascii small [59, 99] [(.word [97], []), (.op [59], []), (.word [98], [])] = true ∧ Lex.stopB [59, 99] = true := by
+  decide +kernel
+example : Lex.tokenize .ascii small [97, 59, 98, 59, 99] = .err ⟨"E1007", .at 3⟩ := by decide +kernel
+example : (match Lex.tokenize .ascii small [97, 59, 98] with | .ok out _ => out.length | _ => 0) = 4 := by decide +kernel
 
 end GoSQLXModel.Props.C02
